@@ -341,6 +341,8 @@ def confirm_replay(binary, engine, path, want_class, env=None):
 def write_evidence(prop, tier, level, coverage, assumptions, wall, violations):
     if SHADOW:
         return  # runs against a scratch copy are not evidence
+    coverage.setdefault("simulated_runs_per_hour", int(coverage.get("evaluations", 0) / max(wall, 1e-6) * 3600))
+    coverage.setdefault("seeds_per_hour", "one VERIF_SEED per invocation; run seeds (one per simulated run) per hour = simulated_runs_per_hour")
     os.makedirs(os.path.join(VERIF, "evidence"), exist_ok=True)
     doc = {
         "property_id": prop, "tier": tier, "seed": seed(), "level": level,
@@ -665,6 +667,9 @@ def check_c15(tier):
         "L1_repeated_observations_compared": sum_counter(results, "repeated_observations_compared"),
         "L1_params_equality_checked": sum_counter(results, "params_equality_checked"),
         "L1_noise_steps": sum_counter(results, "noise_steps"),
+        "L1_pristine_references_computed_in_fresh_processes": sum_counter(results, "pristine_references"),
+        "L1_observations_compared_with_pristine_reference": sum_counter(results, "compared_with_pristine"),
+        "L1_twin_observations(equal parameters, other object history)": sum_counter(results, "twin_observations"),
         "L4_replicas": rep_info,
         "L3_miri": miri_info,
         "fault_kinds_fired": {"signer_Err_during_noise_generation": sum_counter(results, "noise_failing-gen"),
